@@ -1,7 +1,420 @@
-(** Proofs about Model/RuleListParser.v (C15). *)
+(** Proofs about Model/RuleListParser.v (C15): the stored form of a list is a
+    fixed point of the parser, and its shape. *)
 From Coq Require Import NArith List Bool Lia.
 From AGH Require Import Base.Run Base.Bytes Model.RuleListParser.
 Import ListNotations.
+Local Open Scope N_scope.
 
-Lemma output_nil : output p_init = [].
-Proof. reflexivity. Qed.
+Lemma rv_rev {A} (l : list A) : rv l = rev l.
+Proof. unfold rv. symmetry. apply rev_alt. Qed.
+
+(** * Pattern stripping *)
+
+Lemma starts_with_spec p : forall s r, starts_with p s = Some r <-> s = p ++ r.
+Proof.
+  induction p as [|a p IH]; intros s r; cbn.
+  - split; congruence.
+  - destruct s as [|b s]; [split; discriminate|].
+    destruct (N.eqb_spec a b) as [->|Nab].
+    + rewrite IH. split; congruence.
+    + split; [discriminate|]. intros [= ? ?]. congruence.
+Qed.
+
+Lemma starts_with_app p u v r : starts_with p u = Some r -> starts_with p (u ++ v) = Some (r ++ v).
+Proof. rewrite !starts_with_spec. intros ->. now rewrite app_assoc. Qed.
+
+Lemma starts_with_app_None p u v : starts_with p (u ++ v) = None -> starts_with p u = None.
+Proof.
+  intros H. destruct (starts_with p u) as [r|] eqn:E; auto.
+  apply starts_with_app with (v := v) in E. congruence.
+Qed.
+
+Lemma strip_with_Some pats : forall s r, strip_with pats s = Some r -> exists p, In p pats /\ s = p ++ r.
+Proof.
+  induction pats as [|p ps IH]; intros s r; cbn; [discriminate|].
+  destruct (starts_with p s) as [r'|] eqn:E.
+  - intros [= <-]. exists p. split; auto. now apply starts_with_spec.
+  - intros H. destruct (IH _ _ H) as (q & Hq & ->). eauto.
+Qed.
+
+Lemma strip_with_None pats s :
+  strip_with pats s = None <-> forall p, In p pats -> starts_with p s = None.
+Proof.
+  induction pats as [|p ps IH]; cbn.
+  - split; auto. intros _ ? [].
+  - destruct (starts_with p s) as [r|] eqn:E.
+    + split; [discriminate|]. intros H. rewrite <- E. apply H. now left.
+    + rewrite IH. split.
+      * intros H q [<-|Hq]; auto.
+      * intros H q Hq. apply H. now right.
+Qed.
+
+Lemma strip_with_app_None pats u v : strip_with pats (u ++ v) = None -> strip_with pats u = None.
+Proof.
+  rewrite !strip_with_None. intros H p Hp. eapply starts_with_app_None. apply H, Hp.
+Qed.
+
+Lemma trim_with_f_fix pats fuel s : strip_with pats s = None -> trim_with_f pats fuel s = s.
+Proof. destruct fuel; cbn; auto. now intros ->. Qed.
+
+Lemma trim_with_f_suffix pats : forall fuel s, exists pre, s = pre ++ trim_with_f pats fuel s.
+Proof.
+  induction fuel as [|f IH]; intros s; cbn; [now exists []|].
+  destruct (strip_with pats s) as [r|] eqn:E; [|now exists []].
+  apply strip_with_Some in E. destruct E as (p & _ & ->).
+  destruct (IH r) as (pre & Hr). exists (p ++ pre). now rewrite <- app_assoc, <- Hr.
+Qed.
+
+Lemma trim_with_f_none pats : (forall p, In p pats -> p <> []) ->
+  forall fuel s, (length s <= fuel)%nat -> strip_with pats (trim_with_f pats fuel s) = None.
+Proof.
+  intros Hne. induction fuel as [|f IH]; intros s Hl; cbn.
+  - destruct s; [|cbn in Hl; lia]. apply strip_with_None. intros p Hp.
+    destruct p as [|a p]; [now apply Hne in Hp|reflexivity].
+  - destruct (strip_with pats s) as [r|] eqn:E; auto.
+    apply IH. apply strip_with_Some in E. destruct E as (p & Hp & ->).
+    apply Hne in Hp. rewrite app_length in Hl. destruct p; [congruence|cbn in Hl; lia].
+Qed.
+
+Lemma space_runes_nonempty p : In p space_runes -> p <> [].
+Proof. cbn. intuition (subst; discriminate). Qed.
+
+Lemma rev_space_runes_nonempty p : In p (map (@rev N) space_runes) -> p <> [].
+Proof. cbn. intuition (subst; discriminate). Qed.
+
+(** * bytes.TrimSpace *)
+
+(** No leading / trailing white-space rune. *)
+Definition no_outer_space (t : bytes) : Prop :=
+  strip_with space_runes t = None /\ strip_with (map (@rev N) space_runes) (rev t) = None.
+
+Lemma trim_right_spec u :
+  strip_with (map (@rev N) space_runes) (rev (trim_right u)) = None /\
+  exists suf, u = trim_right u ++ suf.
+Proof.
+  unfold trim_right, trim_with. rewrite !rv_rev, rev_involutive. split.
+  - apply trim_with_f_none; [apply rev_space_runes_nonempty|lia].
+  - destruct (trim_with_f_suffix (map (@rev N) space_runes) (length (rev u)) (rev u)) as (pre & H).
+    exists (rev pre). apply (f_equal (@rev N)) in H. rewrite rev_involutive, rev_app_distr in H. exact H.
+Qed.
+
+Lemma trim_left_spec s :
+  strip_with space_runes (trim_left s) = None /\ exists pre, s = pre ++ trim_left s.
+Proof.
+  unfold trim_left, trim_with. split.
+  - apply trim_with_f_none; [apply space_runes_nonempty|lia].
+  - apply trim_with_f_suffix.
+Qed.
+
+Lemma trim_space_infix s : exists pre suf, s = pre ++ trim_space s ++ suf.
+Proof.
+  unfold trim_space. destruct (trim_left_spec s) as (_ & pre & Hs).
+  destruct (trim_right_spec (trim_left s)) as (_ & suf & Hu).
+  exists pre, suf. now rewrite <- Hu.
+Qed.
+
+Lemma trim_space_no_outer s : no_outer_space (trim_space s).
+Proof.
+  unfold trim_space. destruct (trim_left_spec s) as (Hl & _).
+  destruct (trim_right_spec (trim_left s)) as (Hr & suf & Hu). split; auto.
+  rewrite Hu in Hl. eapply strip_with_app_None; eauto.
+Qed.
+
+Lemma trim_space_fixed t : no_outer_space t -> trim_space t = t.
+Proof.
+  intros [Hl Hr]. unfold trim_space, trim_left, trim_right, trim_with.
+  rewrite (trim_with_f_fix _ _ _ Hl), !rv_rev, (trim_with_f_fix _ _ _ Hr). apply rev_involutive.
+Qed.
+
+Lemma trim_space_idem s : trim_space (trim_space s) = trim_space s.
+Proof. apply trim_space_fixed, trim_space_no_outer. Qed.
+
+Lemma trim_space_length s : (length (trim_space s) <= length s)%nat.
+Proof.
+  destruct (trim_space_infix s) as (pre & suf & H). rewrite H at 2. rewrite !app_length. lia.
+Qed.
+
+Lemma trim_space_no_nl s : ~ In 10 s -> ~ In 10 (trim_space s).
+Proof.
+  destruct (trim_space_infix s) as (pre & suf & H). intros N I. apply N. rewrite H.
+  rewrite !in_app_iff. tauto.
+Qed.
+
+Lemma no_outer_drop_cr t : no_outer_space t -> drop_cr t = t.
+Proof.
+  intros [_ Hr]. unfold drop_cr. rewrite rv_rev.
+  destruct (rev t) as [|c r] eqn:E; auto.
+  destruct (N.eqb_spec c 13) as [->|Nc].
+  - exfalso. rewrite strip_with_None in Hr.
+    specialize (Hr [13]). cbn in Hr. discriminate Hr. tauto.
+  - destruct c as [|p]; auto.
+    repeat (destruct p as [p|p|]; auto; try congruence).
+Qed.
+
+(** * The scanner *)
+
+Lemma drop_cr_prefix t : exists suf, t = drop_cr t ++ suf.
+Proof.
+  unfold drop_cr. rewrite rv_rev. destruct (rev t) as [|c r] eqn:E; [exists []; now rewrite app_nil_r|].
+  assert (Ht : t = rev r ++ [c]).
+  { rewrite <- (rev_involutive t), E. reflexivity. }
+  destruct (N.eqb_spec c 13) as [->|Nc].
+  - rewrite rv_rev. now exists [13].
+  - exists []. rewrite app_nil_r. destruct c as [|p]; auto.
+    repeat (destruct p as [p|p|]; auto; try congruence).
+Qed.
+
+Lemma lenN_app a b : lenN (a ++ b) = lenN a + lenN b.
+Proof. unfold lenN. rewrite app_length. lia. Qed.
+
+Lemma lenN_cons a l : lenN (a :: l) = lenN l + 1.
+Proof. unfold lenN. cbn [length]. lia. Qed.
+
+(** Every token is free of newlines and shorter than the buffer. *)
+Definition token_ok (t : bytes) : Prop := ~ In 10 t /\ lenN t < max_token.
+
+Lemma drop_cr_token_ok t : token_ok t -> token_ok (drop_cr t).
+Proof.
+  intros [H1 H2]. destruct (drop_cr_prefix t) as (suf & E). split.
+  - intros I. apply H1. rewrite E. apply in_app_iff. now left.
+  - rewrite E, lenN_app in H2. lia.
+Qed.
+
+Lemma scan_tokens_ok : forall x cur n ts e,
+  scan x cur n = (ts, e) -> n = lenN cur -> token_ok (rev cur) ->
+  Forall token_ok ts.
+Proof.
+  induction x as [|b x IH]; intros cur n ts e; cbn [scan].
+  - destruct (n =? 0); intros [= <- <-] _ Hc; auto.
+    constructor; auto. rewrite rv_rev. now apply drop_cr_token_ok.
+  - destruct (N.eqb_spec b 10) as [->|Nb].
+    + destruct (scan x [] 0) as [ts' e'] eqn:S. intros [= <- <-] Hn Hc.
+      constructor.
+      * rewrite rv_rev. now apply drop_cr_token_ok.
+      * eapply IH; eauto. split; [intros []|reflexivity].
+    + destruct (N.leb_spec max_token (n + 1)).
+      * intros [= <- <-] _ _. constructor.
+      * intros S Hn [Hc1 Hc2]. eapply IH; eauto.
+        -- rewrite lenN_cons. lia.
+        -- cbn [rev]. split.
+           ++ rewrite in_app_iff. cbn. intros [I|[I|[]]]; [tauto|congruence].
+           ++ rewrite lenN_app. unfold lenN at 2. cbn.
+              unfold lenN in *. rewrite rev_length in *. lia.
+Qed.
+
+(** Scanning the stored form gives back its lines. *)
+Definition line_ok (r : bytes) : Prop := token_ok r /\ drop_cr r = r.
+
+Lemma scan_line : forall r2 r1 rest,
+  ~ In 10 r2 -> lenN (r1 ++ r2) < max_token ->
+  scan (r2 ++ 10 :: rest) (rev r1) (lenN r1)
+  = let '(ts, e) := scan rest [] 0 in (drop_cr (r1 ++ r2) :: ts, e).
+Proof.
+  induction r2 as [|b r2 IH]; intros r1 rest Hn Hl; cbn [app scan].
+  - rewrite N.eqb_refl, rv_rev, rev_involutive, app_nil_r. reflexivity.
+  - destruct (N.eqb_spec b 10) as [->|Nb]; [exfalso; apply Hn; now left|].
+    rewrite lenN_app, lenN_cons in Hl.
+    destruct (N.leb_spec max_token (lenN r1 + 1)); [lia|].
+    replace (b :: rev r1) with (rev (r1 ++ [b])) by (rewrite rev_app_distr; reflexivity).
+    replace (lenN r1 + 1) with (lenN (r1 ++ [b])) by (rewrite lenN_app; reflexivity).
+    rewrite IH.
+    + now rewrite <- app_assoc.
+    + intros I. apply Hn. now right.
+    + rewrite <- app_assoc. cbn [app]. rewrite lenN_app, lenN_cons. lia.
+Qed.
+
+Lemma scan_stored rs : Forall line_ok rs ->
+  scan (flat_map (fun r => r ++ [10]) rs) [] 0 = (rs, false).
+Proof.
+  induction 1 as [|r rs [[H1 H2] H3] _ IH]; [reflexivity|].
+  cbn [flat_map]. rewrite <- app_assoc. cbn [app].
+  pose proof (scan_line r [] (flat_map (fun r => r ++ [10]) rs) H1) as SL.
+  change (lenN []) with 0 in SL. cbn [rev app] in SL. rewrite SL by exact H2.
+  rewrite IH, H3. reflexivity.
+Qed.
+
+(** * The parser *)
+
+(** A line the parser writes. *)
+Definition rule_ok (w : bytes) : Prop := no_outer_space w /\ classify w = LRule.
+
+Lemma classify_rule_no_title w : classify w = LRule -> title_of w = None.
+Proof.
+  unfold classify, title_of. destruct w as [|c w]; [discriminate|].
+  cbn [title_pattern starts_with].
+  destruct (N.eqb_spec 33 c) as [<-|Nc]; [cbn; discriminate|reflexivity].
+Qed.
+
+Definition cntN (ws : list bytes) : N := N.of_nat (length ws).
+Lemma cntN_cons w ws : cntN (w :: ws) = cntN ws + 1.
+Proof. unfold cntN. cbn [length]. lia. Qed.
+
+Section Parser.
+  Variable crc : N -> bytes -> N.
+  Notation process := (process crc).
+  Notation parse := (parse crc).
+
+  Definition written_of (ws : list bytes) : N := fold_left (fun a w => a + lenN w + 1) ws 0.
+
+  (** What a successful [process] wrote: [ws], oldest first. *)
+  Lemma process_ok_inv : forall toks st0 st,
+    process toks st0 = (st, None) ->
+    exists ws,
+      p_lines st = rev ws ++ p_lines st0 /\
+      Forall (fun w => rule_ok w /\ exists l, In l toks /\ w = trim_space l) ws /\
+      p_count st = p_count st0 + cntN ws /\
+      p_sum st = fold_left crc ws (p_sum st0) /\
+      p_written st = fold_left (fun a w => a + lenN w + 1) ws (p_written st0) /\
+      (p_written st0 = 0 -> match ws with w :: _ => is_html_line w = false | [] => True end).
+  Proof.
+    induction toks as [|l toks IH]; intros st0 st; cbn [RuleListParser.process].
+    - intros [= <-]. exists []. cbn. unfold cntN. cbn. repeat split; auto. lia.
+    - set (t := trim_space l).
+      destruct ((p_written st0 =? 0) && is_html_line t) eqn:Hh; [discriminate|].
+      set (st1 := if p_title_found st0 then st0 else match title_of t with Some ti => _ | None => st0 end).
+      assert (E1 : p_lines st1 = p_lines st0 /\ p_count st1 = p_count st0 /\
+                   p_sum st1 = p_sum st0 /\ p_written st1 = p_written st0).
+      { unfold st1. destruct (p_title_found st0); auto. destruct (title_of t); auto. }
+      destruct E1 as (El & Ec & Es & Ew).
+      destruct (classify t) eqn:Cl; [| |discriminate].
+      + intros H. destruct (IH _ _ H) as (ws & A & B & C & D & E & F).
+        exists ws. rewrite A, C, D, E, El, Ec, Es, Ew. repeat split; auto.
+        * eapply Forall_impl; [|exact B]. intros w (Hw & l0 & Hl0 & ->). split; auto.
+          exists l0. split; auto. now right.
+        * intros Z. apply F. congruence.
+      + intros H. destruct (IH _ _ H) as (ws & A & B & C & D & E & F).
+        cbn [p_lines p_count p_sum p_written] in *.
+        exists (t :: ws). cbn [rev fold_left]. rewrite A, C, D, E, El, Ec, Es, Ew.
+        rewrite <- app_assoc. cbn [app]. repeat split; auto.
+        * constructor.
+          -- split; [split; [apply trim_space_no_outer|exact Cl]|]. exists l. split; auto. now left.
+          -- eapply Forall_impl; [|exact B]. intros w (Hw & l0 & Hl0 & ->). split; auto.
+             exists l0. split; auto. now right.
+        * rewrite cntN_cons. lia.
+        * intros Z. rewrite Z in Hh. cbn in Hh. exact Hh.
+  Qed.
+
+  (** Feeding the written lines back: each is written again, unchanged. *)
+  Lemma process_replay : forall ws st0,
+    Forall rule_ok ws ->
+    (p_written st0 = 0 -> match ws with w :: _ => is_html_line w = false | [] => True end) ->
+    process ws st0 =
+      ({| p_title := p_title st0; p_title_found := p_title_found st0;
+          p_count := p_count st0 + cntN ws;
+          p_written := fold_left (fun a w => a + lenN w + 1) ws (p_written st0);
+          p_sum := fold_left crc ws (p_sum st0);
+          p_lines := rev ws ++ p_lines st0 |}, None).
+  Proof.
+    induction ws as [|w ws IH]; intros st0 Hok Hhtml; cbn [RuleListParser.process].
+    - destruct st0. cbn. unfold cntN. cbn. rewrite N.add_0_r. reflexivity.
+    - inversion Hok as [|? ? [Hno Hcl] Hok']; subst.
+      rewrite (trim_space_fixed w Hno).
+      assert (Hh : (p_written st0 =? 0) && is_html_line w = false).
+      { destruct (N.eqb_spec (p_written st0) 0) as [Z|Z]; [cbn; now apply Hhtml|reflexivity]. }
+      rewrite Hh, (classify_rule_no_title w Hcl), Hcl.
+      assert (Est : (if p_title_found st0 then st0 else st0) = st0) by (destruct (p_title_found st0); auto).
+      rewrite Est. rewrite IH; auto.
+      + cbn [p_title p_title_found p_count p_written p_sum p_lines rev fold_left].
+        rewrite <- app_assoc. cbn [app]. f_equal. f_equal. rewrite cntN_cons. lia.
+      + cbn [p_written]. intros Z. lia.
+  Qed.
+
+  (** ** The fixed point *)
+
+  Theorem parse_fixed_point x re st :
+    parse x re = (st, None) ->
+    exists st',
+      parse (output st) false = (st', None) /\
+      output st' = output st /\
+      p_count st' = p_count st /\ p_sum st' = p_sum st /\ p_written st' = p_written st.
+  Proof.
+    unfold RuleListParser.parse at 1. destruct (scan x [] 0) as [toks tl] eqn:S.
+    destruct (process toks p_init) as [st1 [e|]] eqn:P; [discriminate|].
+    intros H. assert (st1 = st) by congruence. subst st1. clear H.
+    destruct (process_ok_inv _ _ _ P) as (ws & A & B & C & D & E & F).
+    cbn [p_init p_lines p_count p_sum p_written] in *. rewrite app_nil_r in A.
+    assert (Htok : Forall token_ok toks).
+    { eapply scan_tokens_ok; eauto. split; [intros []|reflexivity]. }
+    assert (Hout : output st = flat_map (fun r => r ++ [10]) ws).
+    { unfold output. now rewrite rv_rev, A, rev_involutive. }
+    assert (Hlines : Forall line_ok ws).
+    { eapply Forall_impl; [|exact B]. intros w ((Hno & _) & l & Hl & ->).
+      eapply Forall_forall in Htok; [|exact Hl]. destruct Htok as [T1 T2].
+      split; [split|].
+      - now apply trim_space_no_nl.
+      - pose proof (trim_space_length l). unfold lenN in *. lia.
+      - now apply no_outer_drop_cr. }
+    assert (Hrules : Forall rule_ok ws) by (eapply Forall_impl; [|exact B]; intros ? [? _]; assumption).
+    eexists. unfold RuleListParser.parse. rewrite Hout, (scan_stored ws Hlines).
+    rewrite (process_replay ws p_init Hrules (fun _ => F eq_refl)).
+    cbn [p_init p_title p_title_found p_count p_written p_sum p_lines].
+    split; [reflexivity|].
+    unfold output. cbn [p_lines]. rewrite rv_rev, app_nil_r, rev_involutive.
+    cbn [p_count p_sum p_written]. repeat split; congruence.
+  Qed.
+
+  (** ** Shape of the stored form *)
+
+  Definition line_shape (w : bytes) : Prop :=
+    w <> [] /\ hd 0 w <> 35 /\ hd 0 w <> 33 /\ no_outer_space w /\
+    ~ In 10 w /\ existsb likely_binary w = false.
+
+  Lemma rule_ok_shape w : rule_ok w -> w <> [] /\ hd 0 w <> 35 /\ hd 0 w <> 33 /\
+                                        existsb likely_binary w = false.
+  Proof.
+    intros [_ Cl]. unfold classify in Cl. destruct w as [|c w]; [discriminate|]. cbn [hd].
+    destruct (N.eqb_spec c 35); [discriminate|]. destruct (N.eqb_spec c 33); [discriminate|].
+    cbn [orb] in Cl. destruct (existsb likely_binary (c :: w)); [discriminate|].
+    repeat split; auto. discriminate.
+  Qed.
+
+  Theorem parse_output_shape x re st :
+    parse x re = (st, None) ->
+    exists ws, output st = flat_map (fun w => w ++ [10]) ws /\ Forall line_shape ws /\
+               p_count st = cntN ws /\ p_sum st = fold_left crc ws 0 /\ p_written st = lenN (output st).
+  Proof.
+    unfold RuleListParser.parse. destruct (scan x [] 0) as [toks tl] eqn:S.
+    destruct (process toks p_init) as [st1 [e|]] eqn:P; [discriminate|].
+    intros H. assert (st1 = st) by congruence. subst st1. clear H.
+    destruct (process_ok_inv _ _ _ P) as (ws & A & B & C & D & E & F).
+    cbn [p_init p_lines p_count p_sum p_written] in *. rewrite app_nil_r in A.
+    assert (Htok : Forall token_ok toks).
+    { eapply scan_tokens_ok; eauto. split; [intros []|reflexivity]. }
+    assert (Hout : output st = flat_map (fun r => r ++ [10]) ws).
+    { unfold output. now rewrite rv_rev, A, rev_involutive. }
+    exists ws. split; auto. split; [|split; [lia|split; auto]].
+    - eapply Forall_impl; [|exact B]. intros w (Hr & l & Hl & ->).
+      destruct (rule_ok_shape _ Hr) as (S1 & S2 & S3 & S4).
+      eapply Forall_forall in Htok; [|exact Hl]. destruct Htok as [T1 _].
+      repeat split; auto; try apply Hr. now apply trim_space_no_nl.
+    - rewrite E, Hout.
+      assert (G : forall a, fold_left (fun a w => a + lenN w + 1) ws a
+                            = a + lenN (flat_map (fun r => r ++ [10]) ws)).
+      { clear. induction ws as [|w ws IH]; intros a; cbn [fold_left flat_map].
+        - unfold lenN. cbn. lia.
+        - rewrite IH, !lenN_app. change (lenN [10]) with 1. lia. }
+      rewrite G. lia.
+  Qed.
+End Parser.
+
+Lemma parse_read_error crc x st e : parse crc x true = (st, e) -> e <> None.
+Proof.
+  unfold parse. destruct (scan x [] 0) as [toks tl].
+  destruct (process crc toks p_init) as [st1 [e1|]]; intros [= <- <-]; [discriminate|].
+  destruct tl; discriminate.
+Qed.
+
+(** * Non-vacuity *)
+Module Examples.
+  (* " ! Title: T \r\n# c\n\n  ||x^ \t\r\n\xc2\xa0a\rb\xe3\x80\x80\nlast" *)
+  Definition text : bytes :=
+    [32;33;32;84;105;116;108;101;58;32;84;32;13;10; 35;32;99;10; 10;
+     32;32;124;124;120;94;32;9;13;10; 194;160;97;13;98;227;128;128;10; 108;97;115;116].
+  Definition stored : bytes := [124;124;120;94;10; 97;13;98;10; 108;97;115;116;10].
+End Examples.
+
+Example parse_example :
+  let '(st, e) := parse crc32_update Examples.text false in
+  e = None /\ output st = Examples.stored /\ p_count st = 3 /\ p_title st = [84] /\
+  output st <> Examples.text.
+Proof. vm_compute. repeat split; congruence. Qed.
